@@ -187,14 +187,20 @@ class BpWorld(object):
     PROBE_EID = 'dtn://node/probe'
 
     def __init__(self, node_id='dtn://node/', rx_routes=(), tx_routes=(), accept=False, safe_endpoint=None,
-                 setup=None, adaptors=False):
+                 setup=None, adaptors=False, fresh=True, bus_key='bp-bus', ext_cl=None, probe_eid=None):
         ''' rx_routes: [(prefix, action)], tx_routes: [(prefix, next_node, mtu[, cltype])] (prefix match).
         adaptors: transmit routes go through the real bp.cla adaptor of their cltype ('udpcl' / 'btpu') to a
         stand-in CL service on the bus, which may leave and re-join the bus (cl_down / cl_up). '''
-        GLib.reset()
-        dbus.bus.BusConnection.reset_all()
-        dbus.RECORDER.clear()
-        dbus.RECORDER.sink = lambda ev: None
+        # fresh=False: this node joins a world somebody else has set up (composition with real CL agents);
+        # ext_cl: {cltype: (bus name, tx parameters)} of real CL services on this node's bus
+        if fresh:
+            GLib.reset()
+            dbus.bus.BusConnection.reset_all()
+            dbus.RECORDER.clear()
+            dbus.RECORDER.sink = lambda ev: None
+        if probe_eid is not None:
+            self.PROBE_EID = probe_eid
+        self.ext_cl = dict(ext_cl or {})
         bp.agent.datetime = _DatetimeModule
         bp.util.datetime = _DatetimeModule
         self.node_id = node_id
@@ -205,13 +211,13 @@ class BpWorld(object):
         self.safe_endpoint = safe_endpoint
         self.adaptors = bool(adaptors)
         self.tx_routes = [tuple(r[:3]) for r in tx_routes]
-        self.tx_cl = [(r[3] if len(r) > 3 else 'udpcl') if adaptors else 'fake' for r in tx_routes]
+        self.tx_cl = [(r[3] if len(r) > 3 else 'udpcl') if (adaptors or self.ext_cl) else 'fake' for r in tx_routes]
         self.cl_up_now = {}
         self.cl_svc = {}
         cfg = bp.config.Config()
         cfg.node_id = node_id
         cfg.accept_after_verify = accept
-        cfg._bus_conn = dbus.bus.BusConnection('bp-bus')
+        cfg._bus_conn = dbus.bus.BusConnection(bus_key)
         for (prefix, action) in rx_routes:
             cfg.rx_route_table.append(bp.config.RxRouteItem(eid_pattern=re.compile(re.escape(prefix)), action=action))
         for ((prefix, nxt, mtu), cltype) in zip(self.tx_routes, self.tx_cl):
@@ -220,6 +226,8 @@ class BpWorld(object):
                 raw['mtu'] = mtu
             if adaptors:
                 raw.update(CL_SERVICES[cltype][3])
+            elif cltype in self.ext_cl:
+                raw = dict(self.ext_cl[cltype][1])
             cfg.tx_route_table.append(bp.config.TxRouteItem(eid_pattern=re.compile(re.escape(prefix)),
                                                             next_nodeid=nxt, cl_type=cltype, mtu=mtu,
                                                             raw_config=raw))
@@ -234,6 +242,21 @@ class BpWorld(object):
                 cfg.bus_conn.request_name(CL_SERVICES[cltype][0])
                 self.cl_up_now[cltype] = True
                 self.agent.cl_attach(cltype, CL_SERVICES[cltype][0])
+        for (cltype, (servname, _params)) in sorted(self.ext_cl.items()):
+            self.cl_up_now[cltype] = True
+            self.agent.cl_attach(cltype, servname)
+            # what the adaptor hands to the agent is a reception like any other
+            adaptor = self.agent.get_cla(cltype)
+            inner = adaptor.recv_bundle_finish
+
+            def finish(data, metadata, inner=inner):
+                self.note_recv(bytes(data), note='from ' + cltype)
+                try:
+                    inner(data, metadata)
+                except Exception as err:
+                    self.emit('Escape', where='recv', exc=type(err).__name__, expected=False)
+                self.boundary('recv')
+            adaptor.recv_bundle_finish = finish
         self._install_probe()
         self._wrap_builtin_apps()
         self.cur_mtu = None
@@ -393,20 +416,7 @@ class BpWorld(object):
              corrupt=False):
         ''' The CLA hands a received bundle to the agent (as _cl_recv_bundle_finish does).
         sec/plain/nsec: what the generator of the bundle knows about its security blocks. '''
-        rec, bun = abstract_bundle(octets)
-        rx, tx = self.route_info(rec['dest']) if rec['ok'] else ([], [])
-        btypes = sorted(b['type'] for b in rec['blocks'])
-        if bun is not None and rec['paylen'] >= 0 and rec['base'] not in self.originals and not rec['isfrag']:
-            self.originals[rec['base']] = bp7.payload_of(bun)
-        if rec['ok'] and rec['base'] not in self.rx_age:
-            ages = [b['age'] for b in rec['blocks'] if b['kind'] == 'age']
-            self.rx_age[rec['base']] = (ages[0] if ages else None, dtn_now_ms())
-        self.emit('Recv', b=rec, corrupt=bool(corrupt), rx=rx, tx=tx,
-                  own=bool(rec['ok'] and rec['src'] == self.node_id),
-                  admin=bool(rec['ok'] and rec['dest'] == self.node_id),
-                  appdest=bool(rec['ok'] and self.safe_endpoint is not None and rec['dest'] == self.safe_endpoint),
-                  sec=sec, plain=plain, nsec=nsec, idle0=len(GLib.SCHED.sources), btypes=btypes, note=note,
-                  rptroute=bool(rec['ok'] and self.routable(rec['rpt'])))
+        rec = self.note_recv(octets, note=note, sec=sec, plain=plain, nsec=nsec, corrupt=corrupt)
         try:
             if via is not None:
                 # through the real adaptor: the CL service announces the bundle, the adaptor pops and decodes it
@@ -422,6 +432,24 @@ class BpWorld(object):
             self.emit('Escape', where='recv', exc=type(err).__name__,
                       expected=bool(expect_decode_error or corrupt or not rec['ok']))
         self.boundary('recv')
+
+    def note_recv(self, octets, note='', sec='none', plain='', nsec=0, corrupt=False):
+        ''' Record that these octets are being handed to the agent as a received bundle. '''
+        rec, bun = abstract_bundle(octets)
+        rx, tx = self.route_info(rec['dest']) if rec['ok'] else ([], [])
+        btypes = sorted(b['type'] for b in rec['blocks'])
+        if bun is not None and rec['paylen'] >= 0 and rec['base'] not in self.originals and not rec['isfrag']:
+            self.originals[rec['base']] = bp7.payload_of(bun)
+        if rec['ok'] and rec['base'] not in self.rx_age:
+            ages = [b['age'] for b in rec['blocks'] if b['kind'] == 'age']
+            self.rx_age[rec['base']] = (ages[0] if ages else None, dtn_now_ms())
+        self.emit('Recv', b=rec, corrupt=bool(corrupt), rx=rx, tx=tx,
+                  own=bool(rec['ok'] and rec['src'] == self.node_id),
+                  admin=bool(rec['ok'] and rec['dest'] == self.node_id),
+                  appdest=bool(rec['ok'] and self.safe_endpoint is not None and rec['dest'] == self.safe_endpoint),
+                  sec=sec, plain=plain, nsec=nsec, idle0=len(GLib.SCHED.sources), btypes=btypes, note=note,
+                  rptroute=bool(rec['ok'] and self.routable(rec['rpt'])))
+        return rec
 
     def boundary(self, name):
         ag = self.agent
